@@ -68,15 +68,9 @@ impl<'a> TyRw<'a> {
             for p in wc.predicates.iter() {
                 match p {
                     WherePredicate::Type(pt) => {
-                        let mentions = match &pt.bounded_ty {
-                            Type::Path(tp) => tp
-                                .path
-                                .segments
-                                .first()
-                                .map(|s| self.dropped(&s.ident))
-                                .unwrap_or(false),
-                            _ => false,
-                        };
+                        // a predicate that mentions a dropped generic anywhere (bounded type or bounds) goes away with it
+                        let toks: Vec<String> = quote::ToTokens::to_token_stream(pt).into_iter().flat_map(flatten_tokens).collect();
+                        let mentions = toks.iter().any(|t| self.u.dropgeneric.iter().any(|g| g == t));
                         if !mentions {
                             let mut pt = pt.clone();
                             let mut me = TyRw { u: self.u, in_unit_ty: false };
@@ -100,6 +94,14 @@ impl<'a> TyRw<'a> {
     fn clone_visit_bound(&self, b: &mut TypeParamBound) {
         let mut me = TyRw { u: self.u, in_unit_ty: false };
         me.visit_type_param_bound_mut(b);
+    }
+}
+
+fn flatten_tokens(t: proc_macro2::TokenTree) -> Vec<String> {
+    match t {
+        proc_macro2::TokenTree::Group(g) => g.stream().into_iter().flat_map(flatten_tokens).collect(),
+        proc_macro2::TokenTree::Ident(i) => vec![i.to_string()],
+        _ => vec![],
     }
 }
 
@@ -151,8 +153,7 @@ impl<'a> VisitMut for TyRw<'a> {
                 }
             };
             if let Some((_, to)) = self.u.assoc.iter().find(|(a, _)| *a == key) {
-                let id = Ident::new(to, proc_macro2::Span::call_site());
-                *t = parse_quote!(#id);
+                *t = syn::parse_str::<Type>(to).expect("assoc target type");
                 return;
             }
         }
@@ -179,7 +180,10 @@ impl<'a> VisitMut for TyRw<'a> {
                 let full = full.join("::");
                 if let Some((_, to)) = self.u.pathrename.iter().find(|(a, _)| *a == full) {
                     let id = Ident::new(to, proc_macro2::Span::call_site());
-                    *t = parse_quote!(#id);
+                    // keep the generic arguments of the last segment (rewritten)
+                    let mut args = tp.path.segments.last().unwrap().arguments.clone();
+                    self.visit_path_arguments_mut(&mut args);
+                    *t = parse_quote!(#id #args);
                     return;
                 }
             }
